@@ -274,20 +274,28 @@ Fixpoint nat_list_eqb (a b : list nat) : bool :=
   | _, _ => false
   end.
 
+Definition hist_eqb (a b : list (list Q) * list Q) : bool := qmat_eqb (fst a) (fst b) && qlist_eqb (snd a) (snd b).
+
 Inductive case :=
 (* one sample_batch call of a surrogate sampler: batch size, grid, observed pool (argument of predict), observed
    predictions, observed np.argsort answer, observed argument of digitize_data, observed return value;
    tol = the pool is off-grid on a non-dyadic grid (see Model/Snap.v cell_ok) *)
 | SB (tol : bool) (k : nat) (grids pool : list (list float)) (preds : list float) (order : list nat)
      (selected out : list (list float))
+     (pts : list (list float)) (losses : list float)          (* the history arrays when sample_batch was entered *)
+     (fit_x : list (list float)) (fit_y : list float)         (* the arrays fit was handed *)
+     (pts' : list (list float)) (losses' : list float)        (* the caller's arrays when sample_batch returned *)
 (* XGBoostSampler._clip_losses: argument, the two constants assigned, returned array, argument afterwards *)
 | CLIP (y : list float) (hi lo : float) (ret after : list float).
 
 Definition check_case (c : case) : bool :=
   match c with
-  | SB tol k grids pool preds order selected out =>
+  | SB tol k grids pool preds order selected out pts losses fit_x fit_y pts' losses' =>
       finite_m grids && finite_m pool && finite_l preds && finite_m selected && finite_m out &&
-      let r := stub_sample_batch k (qss grids) (qss pool) (qs preds) order ([], []) in
+      finite_m pts && finite_m fit_x && finite_m pts' && no_nan_l losses && no_nan_l fit_y && no_nan_l losses' &&
+      let r := stub_sample_batch k (qss grids) (qss pool) (qs preds) order (qss pts, ls losses) in
+      hist_eqb (t_fit_arg _ _ _ (trace_of _ _ _ _ r)) (qss fit_x, ls fit_y) &&
+      hist_eqb (history_after _ _ _ _ r) (qss pts', ls losses') &&
       is_argsortQ (qs preds) order &&
       Nat.eqb (length preds) (length pool) &&
       qmat_eqb (t_selected _ _ _ (trace_of _ _ _ _ r)) (qss selected) &&
